@@ -981,11 +981,21 @@ fn cmd_codec_cases(args: &[String]) {
     let _ = &big;
     for (ci, cj) in cases.iter().enumerate() {
         let c = &cj["c"];
-        let msg = codecx::sample_message(c["kind"].as_str().unwrap(), ci, &mut rng);
-        let payload = msg.encode().unwrap();
-        let e = payload.len();
         let lenc = c["len"].as_str().unwrap();
+        let kind = c["kind"].as_str().unwrap();
+        // for the inner-length class pick a variant of the kind that has a length field (Ack with Some(message))
+        let variant = if lenc == "innerhuge" && kind == "Ack" { ci | 1 } else { ci };
+        let msg = codecx::sample_message(kind, variant, &mut rng);
+        let mut payload = msg.encode().unwrap();
+        let e = payload.len();
+        let inner_applies = lenc == "innerhuge" && matches!(kind, "SignatureResponse" | "DeltaData" | "Ack" | "Error");
+        if inner_applies {
+            let off = match kind { "Error" => 8, "Ack" => 14, "SignatureResponse" => 28, _ => 32 };
+            let huge: u64 = [1u64 << 26, 1 << 47, u64::MAX, (1 << 32) + 5][ci % 4];
+            payload[off..off + 8].copy_from_slice(&huge.to_le_bytes());
+        }
         let (decl, avail): (u32, usize) = match lenc {
+            "innerhuge" => (e as u32, e),
             "zero" => (0, 0),
             "trunc" => ((e - 1 - (ci % e.min(5))) as u32, e),   // declared < encoded size
             "exact" => (e as u32, e),
@@ -1009,6 +1019,10 @@ fn cmd_codec_cases(args: &[String]) {
         match c["cut"].as_str().unwrap() { "cut0" => stream.truncate(0), "cut5" => stream.truncate(5), "cut11" => stream.truncate(11), _ => {} }
         let want = cj["want"].as_str().unwrap();
         if want != "Ok" { nontrivial += 1; }
+        if inner_applies {
+            // an allocation failure aborts the process: leave a marker naming the case being decoded
+            let _ = std::fs::write(format!("{}.cur", args[1]), serde_json::to_vec(&json!({"case":ci,"c":c,"declared_len":decl,"inner_len_index":ci % 4})).unwrap());
+        }
         // Codec::read_message over the stream
         let (r, peak, one) = countalloc::measure(|| catch_unwind(AssertUnwindSafe(|| { let mut codec = Codec::new(); codec.read_message(&mut &stream[..]) })));
         evals += 1;
@@ -1017,7 +1031,7 @@ fn cmd_codec_cases(args: &[String]) {
         if got == "PANIC" { w.write(&json!({"kind":"violation","case":ci,"what":"Codec::read_message panicked","input":inp})); }
         else if got == "Ok" && want != "Ok" { w.write(&json!({"kind":"violation","case":ci,"what":format!("Codec::read_message accepted a frame that must be an error (spec: {want})"),"input":inp})); }
         else if got != want { w.write(&json!({"kind": if want == "Ok" {"violation"} else {"nonconf"},"case":ci,"what":format!("Codec::read_message -> {got}, spec {want}"),"input":inp})); }
-        if got == "Ok" { if let Ok(Ok(m)) = &r { if *m != msg { w.write(&json!({"kind":"violation","case":ci,"what":"decoded message differs from the original","input":inp})); } } }
+        if got == "Ok" && !inner_applies { if let Ok(Ok(m)) = &r { if *m != msg { w.write(&json!({"kind":"violation","case":ci,"what":"decoded message differs from the original","input":inp})); } } }
         if peak > BOUND + (1 << 20) + 2 * e || one > BOUND + 4096 { w.write(&json!({"kind":"violation","case":ci,"what":format!("read_message reserved {peak} bytes (largest single request {one}) > 16 MiB bound"),"input":inp})); }
         // FrameHeader::decode on the 12 header bytes, FrameHeader::read_from on the stream
         if c["cut"] == "full" {
@@ -1032,12 +1046,12 @@ fn cmd_codec_cases(args: &[String]) {
             }
         }
         // Message::decode on the frame's payload bytes
-        if c["cut"] == "full" && matches!(lenc, "zero" | "trunc" | "exact" | "pad") {
+        if c["cut"] == "full" && matches!(lenc, "zero" | "trunc" | "exact" | "pad" | "innerhuge") {
             let pl = &body[..(decl as usize).min(body.len())];
             let (r, peak, _one) = countalloc::measure(|| catch_unwind(|| Message::decode(pl)));
             evals += 1;
             let got = codecx::class(&r);
-            let wantm = if matches!(lenc, "exact" | "pad") { "Ok" } else { "Protocol" };
+            let wantm = if matches!(lenc, "exact" | "pad") || (lenc == "innerhuge" && !inner_applies) { "Ok" } else { "Protocol" };
             if got == "PANIC" || got != wantm { w.write(&json!({"kind": if got == "PANIC" || wantm == "Ok" {"violation"} else {"nonconf"},"case":ci,"what":format!("Message::decode -> {got}, spec {wantm}"),"input":inp})); }
             if peak > BOUND { w.write(&json!({"kind":"violation","case":ci,"what":format!("Message::decode reserved {peak} bytes"),"input":inp})); }
         }
